@@ -1,7 +1,8 @@
 (* C11 — reference markers are sound and complete for the stated criteria.
-   (theorems are added in stage 2) *)
-From Coq Require Import ZArith List Bool.
-From CTM Require Import Base.Sx Model.Holm Model.Penetrance.
+   Property theorems only: each is closed by `exact <lemma>` (lemmas in Proofs/HolmP.v,
+   Proofs/PenetranceP.v). *)
+From Coq Require Import ZArith List Bool Arith Lia Permutation Sorted.
+From CTM Require Import Base.Sx Model.Holm Model.Penetrance Proofs.HolmP Proofs.PenetranceP.
 Import ListNotations.
 Open Scope Z_scope.
 
@@ -9,3 +10,334 @@ Example c11_example_holm :
   correct_ttest 1000 0 [10; 500; 3; 10; 900; 4] = [40; 1000; 18; 40; 1000; 20] /\
   approx_correct_ttest 1000 100 [10; 500; 3; 10; 900; 4] = [40; 500; 18; 40; 900; 20].
 Proof. vm_compute. split; reflexivity. Qed.
+
+(* ------------------------------------------------------------------ *)
+(* Holm-Bonferroni.  p-values are P/S, the threshold is T/S (S > 0 a common denominator).
+
+   Tie invariance: np.argsort leaves the order of equal p-values unspecified.  For EVERY
+   arrangement l' of enumerate(p) that is sorted by value (every possible argsort result),
+   multiplying by m, m-1, ..., taking the running maximum, clipping at 1 and scattering
+   back by position gives the same array as the model's (stable) order.  Needs p >= 0. *)
+Theorem c11_holm_tie_invariant : forall S padding p l',
+  Forall (fun x => 0 <= x) p ->
+  Permutation l' (index p) -> StronglySorted (fun a b : ipair => snd a <= snd b) l' ->
+  by_index (map (fun x : ipair => (fst x, clip S (snd x)))
+                (runmax (Z.of_nat (length p + padding)) l'))
+  = correct_ttest S padding p.
+Proof. exact holm_tie_invariant. Qed.
+Print Assumptions c11_holm_tie_invariant.
+
+Example c11_holm_tie_nonvacuous :
+  (* two different sorted arrangements of the tie 10 = 10 (positions 0 and 3) *)
+  let p := [10; 500; 3; 10; 900; 4] in
+  let l1 : list ipair := [(2%nat, 3); (5%nat, 4); (0%nat, 10); (3%nat, 10); (1%nat, 500); (4%nat, 900)] in
+  let l2 : list ipair := [(2%nat, 3); (5%nat, 4); (3%nat, 10); (0%nat, 10); (1%nat, 500); (4%nat, 900)] in
+  Forall (fun x => 0 <= x) p /\
+  Permutation l1 (index p) /\ Permutation l2 (index p) /\ l1 <> l2 /\
+  StronglySorted (fun a b : ipair => snd a <= snd b) l1 /\
+  StronglySorted (fun a b : ipair => snd a <= snd b) l2 /\
+  by_index (map (fun x : ipair => (fst x, clip 1000 (snd x))) (runmax 6 l2)) = [40; 1000; 18; 40; 1000; 20].
+Proof.
+  cbv zeta. split; [repeat constructor; lia|].
+  assert (P1 : Permutation [(2%nat, 3); (5%nat, 4); (0%nat, 10); (3%nat, 10); (1%nat, 500); (4%nat, 900)]
+                           (index [10; 500; 3; 10; 900; 4])).
+  { rewrite <- (sortp_perm (index [10; 500; 3; 10; 900; 4])). vm_compute. apply Permutation_refl. }
+  split; [exact P1|]. split.
+  { eapply Permutation_trans; [|exact P1].
+    do 2 constructor. apply perm_swap. }
+  split; [discriminate|].
+  split; [repeat constructor; cbn; lia|].
+  split; [repeat constructor; cbn; lia|].
+  vm_compute. reflexivity.
+Qed.
+
+(* Restricted Holm (DESIGN Appendix A.4): for 0 <= p <= 1 and p_th <= 1,
+   - every p_i < p_th receives exactly its full Holm value,
+   - every other p_i is left unchanged (so stays >= p_th) and its full Holm value is >= p_th too,
+   - hence approx[i] < p_th  <->  holm[i] < p_th at every position. *)
+Theorem c11_restricted_holm_equiv : forall S T p,
+  Forall (fun x => 0 <= x <= S) p -> T <= S ->
+  length (approx_correct_ttest S T p) = length p /\ length (correct_ttest S 0 p) = length p /\
+  forall i v, nth_error p i = Some v ->
+    (v < T -> nth_error (approx_correct_ttest S T p) i = nth_error (correct_ttest S 0 p) i) /\
+    (T <= v -> nth_error (approx_correct_ttest S T p) i = Some v /\
+               exists w, nth_error (correct_ttest S 0 p) i = Some w /\ T <= w) /\
+    (exists a h, nth_error (approx_correct_ttest S T p) i = Some a /\
+                 nth_error (correct_ttest S 0 p) i = Some h /\ (a < T <-> h < T)).
+Proof. exact restricted_holm_equiv. Qed.
+Print Assumptions c11_restricted_holm_equiv.
+
+(* the same as an equation between the decision vectors *)
+Theorem c11_restricted_holm_decisions : forall S T p,
+  Forall (fun x => 0 <= x <= S) p -> T <= S ->
+  map (fun v => v <? T) (approx_correct_ttest S T p) = map (fun v => v <? T) (correct_ttest S 0 p).
+Proof. exact restricted_holm_decisions. Qed.
+Print Assumptions c11_restricted_holm_decisions.
+
+Example c11_restricted_nonvacuous :
+  Forall (fun x => 0 <= x <= 1000) [10; 500; 3; 10; 900; 4] /\ 100 <= 1000 /\
+  map (fun v => v <? 100) (approx_correct_ttest 1000 100 [10; 500; 3; 10; 900; 4]) = [true; false; true; true; false; true].
+Proof.
+  split; [repeat constructor; lia|]. split; [lia|]. vm_compute; reflexivity.
+Qed.
+
+(* Skipping uninteresting t-values.
+   FULL STATEMENT (c11_boring_t_sound): under the CDF hypotheses of DESIGN section 6 (Student and normal
+   CDFs monotone and symmetric, t_cdf(-b, nu) >= norm_cdf(-b), norm_cdf(-boring_t) >= p_th/2)
+   assigning p = 1 to every gene with |t| <= boring_t changes no decision at p_th.
+   PROVED: the Holm half - whenever the exact p-values p and the p-values p' actually used
+   agree except at positions where BOTH are >= p_th, the decision vectors of the restricted
+   and of the full correction coincide.
+   MISSING: deriving "|t| <= boring_t => exact p >= p_th" from the CDF hypotheses (the CDFs
+   are not modelled; the harness checks norm_cdf(-boring_t) >= p_th/2 numerically per run). *)
+Theorem c11_boring_t_sound_partial : forall S T p p',
+  Forall (fun x => 0 <= x <= S) p -> Forall (fun x => 0 <= x <= S) p' -> T <= S ->
+  Forall2 (fun v v' => v = v' \/ (T <= v /\ T <= v')) p p' ->
+  map (fun v => v <? T) (correct_ttest S 0 p) = map (fun v => v <? T) (correct_ttest S 0 p') /\
+  map (fun v => v <? T) (approx_correct_ttest S T p') = map (fun v => v <? T) (correct_ttest S 0 p).
+Proof. exact boring_sound_full. Qed.
+Print Assumptions c11_boring_t_sound_partial.
+
+Example c11_boring_nonvacuous :
+  Forall2 (fun v v' => v = v' \/ (100 <= v /\ 100 <= v')) [10; 500; 3; 10; 900; 4] [10; 1000; 3; 10; 1000; 4] /\
+  map (fun v => v <? 100) (approx_correct_ttest 1000 100 [10; 1000; 3; 10; 1000; 4]) = [true; false; true; true; false; true].
+Proof.
+  split; [|vm_compute; reflexivity].
+  repeat (constructor; [first [left; reflexivity | right; lia]|]). constructor.
+Qed.
+
+(* ------------------------------------------------------------------ *)
+(* The penetrance mask.  Scores are x/S.  Vocabulary (Proofs/PenetranceP.v):
+     above_floors th (q1, qd, f)    :=  q1_min <= q1 /\ qdiff_min <= qd /\ fold_min <= f
+     strictly_passes th (q1, qd, f) :=  q1_th < q1 /\ qdiff_th < qd /\ fold_th < f
+     margin S th                    :=  (th - min)^2 >= 1e-10 for the three criteria
+     crit th exact sc               :=  if exact then strictly_passes th sc else above_floors th sc
+     in_list mask g                 :=  no gene list, or gene g belongs to it *)
+
+(* soundness of approx_penetrance_test: an accepted gene is on or above every floor —
+   under the margin hypothesis (each strict threshold >= 1e-5 above its floor) *)
+Theorem c11_penetrance_sound : forall S th n_valid scores m g,
+  margin S th ->
+  approx_penetrance_test S th n_valid scores = POk m -> nth_error m g = Some true ->
+  exists sc, nth_error scores g = Some sc /\ above_floors th sc.
+Proof. exact approx_sound. Qed.
+Print Assumptions c11_penetrance_sound.
+
+(* F8: without the margin the faithful model REFUTES it: floor 2^-20 below the threshold,
+   gene 2^-20 below the floor, n_valid = 1 -> accepted as "absolutely valid" *)
+Theorem c11_sound_refuted :
+  exists S th n_valid scores m g sc,
+    0 < S /\ th_ordered th /\
+    approx_penetrance_test S th n_valid scores = POk m /\ nth_error m g = Some true /\
+    nth_error scores g = Some sc /\ ~ above_floors th sc.
+Proof. exact approx_sound_refuted. Qed.
+Print Assumptions c11_sound_refuted.
+
+(* completeness of approx_penetrance_test: every gene strictly above the three strict
+   thresholds is accepted, whichever branch (enough absolutely valid genes or not) is taken *)
+Theorem c11_penetrance_complete : forall S th n_valid scores m g sc,
+  0 < S ->
+  approx_penetrance_test S th n_valid scores = POk m ->
+  nth_error scores g = Some sc -> strictly_passes th sc -> nth_error m g = Some true.
+Proof. exact approx_complete. Qed.
+Print Assumptions c11_penetrance_complete.
+
+(* ------------------------------------------------------------------ *)
+(* score_differential_genes (both passes, gene list, n_cells_min).
+   Soundness: a gene recorded as valid for a pair =>
+     both clusters have at least n_cells_min cells, its (restricted) Holm-corrected p-value
+     is below p_th, it belongs to the gene list, and it is on or above every floor
+     (strictly above every strict threshold when exact penetrance is requested).
+   The hypotheses: the margin (F8), q1_min_th > -1 (genes outside the list get q1 = -1) and
+   q1_th > q1_min_th (enforced by the code in the approximate mode). *)
+Theorem c11_sound : forall st mask x v up g,
+  margin (st_S st) (st_th st) ->
+  - st_S st < q1_min (st_th st) -> q1_min (st_th st) < q1_th (st_th st) ->
+  score_differential_genes st mask x = POk (v, up) -> nth_error v g = Some true ->
+  st_n_min st <= pi_n1 x /\ st_n_min st <= pi_n2 x /\
+  (exists a, nth_error (approx_correct_ttest (pi_SP x) (pi_T x) (pi_p x)) g = Some a /\ a < pi_T x) /\
+  in_list mask g /\
+  exists sc, nth_error (pi_scores x) g = Some sc /\ crit (st_th st) (st_exact st) sc.
+Proof. exact sdg_sound. Qed.
+Print Assumptions c11_sound.
+
+(* Completeness: a gene of the list whose corrected p-value is below p_th and which passes
+   the three strict thresholds is recorded — in the first pass and in the relaxed second one *)
+Theorem c11_complete : forall st mask x v up g sc,
+  0 < st_S st -> length (pi_mean1 x) = length (pi_scores x) ->
+  score_differential_genes st mask x = POk (v, up) ->
+  st_n_min st <= pi_n1 x -> st_n_min st <= pi_n2 x ->
+  (exists a, nth_error (approx_correct_ttest (pi_SP x) (pi_T x) (pi_p x)) g = Some a /\ a < pi_T x) ->
+  in_list mask g ->
+  nth_error (pi_scores x) g = Some sc -> strictly_passes (st_th st) sc ->
+  nth_error v g = Some true.
+Proof. exact sdg_complete. Qed.
+Print Assumptions c11_complete.
+
+(* with exact penetrance requested nothing else is recorded *)
+Theorem c11_exact_iff : forall st mask x v up g,
+  st_exact st = true ->
+  margin (st_S st) (st_th st) ->
+  - st_S st < q1_min (st_th st) -> q1_min (st_th st) < q1_th (st_th st) -> 0 < st_S st ->
+  length (pi_mean1 x) = length (pi_scores x) ->
+  score_differential_genes st mask x = POk (v, up) ->
+  (nth_error v g = Some true <->
+   st_n_min st <= pi_n1 x /\ st_n_min st <= pi_n2 x /\
+   (exists a, nth_error (approx_correct_ttest (pi_SP x) (pi_T x) (pi_p x)) g = Some a /\ a < pi_T x) /\
+   in_list mask g /\
+   exists sc, nth_error (pi_scores x) g = Some sc /\ strictly_passes (st_th st) sc).
+Proof. exact sdg_exact_iff. Qed.
+Print Assumptions c11_exact_iff.
+
+Definition c11_st : settings :=
+  mk_settings 1024 (mk_th 512 102 717 102 1024 819) 2 false 3 1.
+Definition c11_x : pair_in :=
+  mk_pair_in 3 2 1024 10 [1; 600; 2; 1]
+             [(900, 800, 2048); (900, 800, 2048); (300, 200, 900); (50, 800, 2048)]
+             [0; 0; 900; 2048] [2048; 2048; 0; 0].
+Example c11_sound_complete_nonvacuous :
+  margin (st_S c11_st) (st_th c11_st) /\ - st_S c11_st < q1_min (st_th c11_st) /\
+  q1_min (st_th c11_st) < q1_th (st_th c11_st) /\
+  score_differential_genes c11_st None c11_x = POk ([true; false; true; false], [true; true; false; false]) /\
+  (* gene 0 strictly passes, gene 2 is only above the floors (recorded by the relaxation),
+     gene 1 fails the p-value, gene 3 is below the q1 floor *)
+  strictly_passes (st_th c11_st) (900, 800, 2048) /\ above_floors (st_th c11_st) (300, 200, 900) /\
+  ~ strictly_passes (st_th c11_st) (300, 200, 900) /\ ~ above_floors (st_th c11_st) (50, 800, 2048).
+Proof.
+  split; [unfold margin; cbn; lia|]. split; [cbn; lia|]. split; [cbn; lia|].
+  split; [vm_compute; reflexivity|].
+  unfold strictly_passes, above_floors; cbn. repeat split; lia.
+Qed.
+
+(* ------------------------------------------------------------------ *)
+(* direction = sign of the difference of the mean log2(CPM+1) *)
+Theorem c11_direction : forall st mask x v up,
+  score_differential_genes st mask x = POk (v, up) ->
+  (pi_n1 x <? st_n_min st) || (pi_n2 x <? st_n_min st) = false ->
+  up = map (fun ab => snd ab >? fst ab) (combine (pi_mean1 x) (pi_mean2 x)) /\
+  forall g m1 m2, nth_error (pi_mean1 x) g = Some m1 -> nth_error (pi_mean2 x) g = Some m2 ->
+     nth_error up g = Some (m2 >? m1).
+Proof. exact sdg_direction. Qed.
+Print Assumptions c11_direction.
+
+(* the up and down lists of a pair: membership, and no gene in both *)
+Theorem c11_up_down_exact : forall v u g,
+  (In g (fst (up_down (v, u))) <-> nth_error v g = Some true /\ nth_error u g = Some true) /\
+  (In g (snd (up_down (v, u))) <-> nth_error v g = Some true /\ nth_error u g = Some false).
+Proof. exact up_down_spec. Qed.
+Print Assumptions c11_up_down_exact.
+
+Theorem c11_no_gene_both_ways : forall v u g,
+  ~ (In g (fst (up_down (v, u))) /\ In g (snd (up_down (v, u)))).
+Proof. exact no_gene_both_ways. Qed.
+Print Assumptions c11_no_gene_both_ways.
+
+(* every valid gene is in exactly one of the two lists *)
+Theorem c11_up_down_cover : forall v u g, length u = length v ->
+  (nth_error v g = Some true <-> In g (fst (up_down (v, u))) \/ In g (snd (up_down (v, u)))).
+Proof. exact up_down_cover. Qed.
+Print Assumptions c11_up_down_cover.
+
+(* swapping the two clusters of a pair (cell counts and means exchanged; p-values, q1, qdiff
+   and |fold| are symmetric) leaves the validity mask unchanged and flips the direction of
+   every recorded gene, given log2_fold_min_th > 0 and log2_fold = |mean1 - mean2| *)
+Theorem c11_pair_swap : forall st mask x v up g,
+  margin (st_S st) (st_th st) ->
+  - st_S st < q1_min (st_th st) -> q1_min (st_th st) < q1_th (st_th st) ->
+  0 < fold_min (st_th st) -> fold_min (st_th st) < fold_th (st_th st) ->
+  length (pi_mean1 x) = length (pi_mean2 x) ->
+  (forall g q1 qd f m1 m2, nth_error (pi_scores x) g = Some (q1, qd, f) ->
+       nth_error (pi_mean1 x) g = Some m1 -> nth_error (pi_mean2 x) g = Some m2 -> f = Z.abs (m1 - m2)) ->
+  score_differential_genes st mask x = POk (v, up) ->
+  exists up', score_differential_genes st mask (swap_pair x) = POk (v, up') /\
+    (nth_error v g = Some true ->
+     forall b, nth_error up g = Some b -> nth_error up' g = Some (negb b)).
+Proof. exact sdg_pair_swap. Qed.
+Print Assumptions c11_pair_swap.
+
+Example c11_pair_swap_nonvacuous :
+  let x := mk_pair_in 3 2 1024 10 [1; 600; 2] [(900, 800, 2048); (900, 800, 2048); (300, 200, 900)]
+                      [0; 0; 900] [2048; 2048; 0] in
+  score_differential_genes c11_st None x = POk ([true; false; true], [true; true; false]) /\
+  score_differential_genes c11_st None (swap_pair x) = POk ([true; false; true], [false; false; true]).
+Proof. cbv zeta. split; vm_compute; reflexivity. Qed.
+
+(* ------------------------------------------------------------------ *)
+(* chunks: cutting the list of pairs into chunks of ANY size n_per >= 1, writing one sparse
+   table per chunk and concatenating them in order equals the table of all pairs *)
+Theorem c11_chunk_merge : forall n_per (rows : list (list nat)), (1 <= n_per)%nat ->
+  merge_sparse (map lookup_to_sparse (chunk_list (length rows) n_per rows)) 0 = lookup_to_sparse rows.
+Proof. exact chunk_merge. Qed.
+Print Assumptions c11_chunk_merge.
+
+(* hence the pair-major tables do not depend on the worker count *)
+Theorem c11_worker_independent : forall st gn gl np np' pairs,
+  find_markers st gn gl np pairs = find_markers st gn gl np' pairs.
+Proof. exact find_markers_workers. Qed.
+Print Assumptions c11_worker_independent.
+
+Example c11_chunk_merge_nonvacuous :
+  merge_sparse (map lookup_to_sparse (chunk_list 5 2 [[1; 4]; []; [0]; [2; 3; 5]; [7]]%nat)) 0
+  = ([0; 2; 2; 3; 6; 7]%nat, [1; 4; 0; 2; 3; 5; 7]%nat).
+Proof. vm_compute. reflexivity. Qed.
+
+(* ------------------------------------------------------------------ *)
+(* the p-value-mask route.
+   Stage 1 (create_p_value_mask_file, one pair): a gene has an entry iff its restricted-Holm
+   p-value is below p_th and it is on or above every floor (no margin hypothesis needed: the
+   floors are applied directly); the entry of a strictly passing gene is the distance 0,
+   stored as "strictly valid".  NOTE: no n_cells_min test at this stage, as coded (finding F16). *)
+Theorem c11_mask_file_exact : forall st x es,
+  p_mask_row st x = POk es ->
+  forall g, (exists w, In (g, w) es) <->
+    exists a sc, nth_error (approx_correct_ttest (pi_SP x) (pi_T x) (pi_p x)) g = Some a /\ a < pi_T x /\
+                 nth_error (pi_scores x) g = Some sc /\ above_floors (st_th st) sc.
+Proof. exact p_mask_row_spec. Qed.
+Print Assumptions c11_mask_file_exact.
+
+Theorem c11_mask_file_strict_is_zero : forall st x es g w sc,
+  p_mask_row st x = POk es -> In (g, w) es ->
+  nth_error (pi_scores x) g = Some sc -> strictly_passes (st_th st) sc -> w = 0.
+Proof. exact p_mask_row_strict. Qed.
+Print Assumptions c11_mask_file_strict_is_zero.
+
+(* Stage 2 (_get_validity_mask): soundness — a gene kept for a pair has an entry in the mask
+   file (hence, by c11_mask_file_exact, corrected p < p_th and above the floors) and belongs
+   to the gene list; completeness — a gene of the list whose entry is "strictly valid"
+   (stored value <= 0) is kept, whether or not n_valid genes are reached *)
+Theorem c11_mask_route_sound : forall SD n_valid n_genes entries mask,
+  0 < SD -> match mask with Some m => length m = n_genes | None => True end ->
+  forall m g,
+  get_validity_mask SD n_valid n_genes entries mask = POk m -> nth_error m g = Some true ->
+  (exists v, entry_of entries g = Some v) /\ in_list mask g.
+Proof. exact validity_mask_sound. Qed.
+Print Assumptions c11_mask_route_sound.
+
+Theorem c11_mask_route_complete : forall SD n_valid n_genes entries mask,
+  0 < SD -> match mask with Some m => length m = n_genes | None => True end ->
+  forall m g v,
+  get_validity_mask SD n_valid n_genes entries mask = POk m ->
+  (g < n_genes)%nat -> entry_of entries g = Some v -> v <= 0 -> in_list mask g ->
+  nth_error m g = Some true.
+Proof. exact validity_mask_complete. Qed.
+Print Assumptions c11_mask_route_complete.
+
+Example c11_mask_route_nonvacuous :
+  get_validity_mask 1024 2 4 [(0%nat, -1024); (2%nat, 300); (3%nat, -1024)] (Some [true; true; true; false])
+  = POk [true; false; true; false] /\
+  p_mask_row c11_st c11_x = POk [(0%nat, 0); (2%nat, 670594)].
+Proof. split; vm_compute; reflexivity. Qed.
+
+(* c11_sound with the FULL Holm-Bonferroni value (restricted-Holm equivalence composed in):
+   recorded => the full Holm-corrected p-value is below p_th, for raw p-values in [0, 1] and p_th <= 1 *)
+Theorem c11_sound_full_holm : forall st mask x v up g,
+  Forall (fun q => 0 <= q <= pi_SP x) (pi_p x) -> pi_T x <= pi_SP x ->
+  margin (st_S st) (st_th st) ->
+  - st_S st < q1_min (st_th st) -> q1_min (st_th st) < q1_th (st_th st) ->
+  score_differential_genes st mask x = POk (v, up) -> nth_error v g = Some true ->
+  st_n_min st <= pi_n1 x /\ st_n_min st <= pi_n2 x /\
+  (exists h, nth_error (correct_ttest (pi_SP x) 0 (pi_p x)) g = Some h /\ h < pi_T x) /\
+  in_list mask g /\
+  exists sc, nth_error (pi_scores x) g = Some sc /\ crit (st_th st) (st_exact st) sc.
+Proof. exact sdg_sound_full_holm. Qed.
+Print Assumptions c11_sound_full_holm.
